@@ -10,7 +10,7 @@ from .tagtable import constructors
 from . import tr
 from ..fde import Opaque
 
-from .common import Guard  # noqa: E402
+from .common import Guard, thorough  # noqa: E402
 
 PROP = 'C18'
 DECIDED = [
@@ -279,6 +279,40 @@ def r3(repo, run):
                           (flag, b['current'], b['parent'], b['default'], flag, b['kept'][0], b['kept'][1], b['elided'][0], b['elided'][1], len(bad)), witness=bad[:4])
         else:
             run.ok('C18.R3', rep, 'elision of %s (%d rows)' % (flag, rows), 'effective values unchanged for node and children')
+    if thorough():
+        # flags are decided independently: for every combination of the four explicit flags (and an ancestor that carries some of them)
+        # the set of flags that reaches the text (tag or encoded metadata) is the union of the single-flag decisions
+        import itertools
+        bad_c = []
+        rows_c = 0
+        single = {}
+        for pmd in (None, {'delete': True}, {'allow_new': False, 'safe': False}, {'priority': 1}):
+            for flag, vals in (('priority', (-1, 1)), ('delete', (True, False)), ('allow_new', (True, False)), ('safe', (True, False))):
+                for v in vals:
+                    par = (pmd or {}).get(flag)
+                    single[(str(pmd), flag, v)] = not _elided(repo, flag, v, par, {'priority': 0, 'delete': False, 'allow_new': True, 'safe': True}[flag])
+            for pr_, dl, an, sf in itertools.product((None, -1, 1), (None, True, False), (None, True, False), (None, True, False)):
+                flags = {'priority': pr_, 'delete': dl, 'allow_new': an, 'safe': sf}
+                raised, log = dump_case(repo, 'ConfigDict', flags, pmd, {'k': 1}, default_safe=True)
+                e = _emit(log)
+                rows_c += 1
+                if raised or e is None:
+                    raise AnalysisError('_node_representer: flag combination %s not evaluable (%s)' % (flags, raised))
+                enc = [x[1] for x in log if x[0] == 'encode']
+                tag = e[1][0] if e[1] and isinstance(e[1][0], str) else ''
+                kept = set(enc[-1]) if enc else set()
+                for f_, v_ in flags.items():
+                    if v_ is not None and v_ in FLAG_TAGS[f_] and tag.split(':')[0] == FLAG_TAGS[f_][v_]:
+                        kept.add(f_)
+                want = {f_ for f_, v_ in flags.items() if v_ is not None and single[(str(pmd), f_, v_)]}
+                if kept != want:
+                    bad_c.append((flags, pmd, sorted(kept), sorted(want)))
+        run.table('C18.R3:combinations', rows_c, 'kept flags over all combinations of the four explicit flags x ancestor metadata')
+        if bad_c:
+            fl, pm, kept, want = bad_c[0]
+            run.violation('C18.R3', rep, 'elision over flag combinations', 'node flags %s below ancestor metadata %s: flags written %s, but the single-flag decisions keep %s' % (fl, pm, kept, want), witness=[str(x) for x in bad_c[:5]])
+        else:
+            run.ok('C18.R3', rep, 'flag combinations (%d rows)' % rows_c, 'each flag is kept / elided independently of the others')
     bad = []
     for current in (-1, 0, 1):
         for parent in (None, -1, 0, 1):
